@@ -523,6 +523,10 @@ func parseInt(s string, base int) (Value, error) {
 	}
 
 	if sign {
+		if n == 0 {
+			// parseInt("-0") is -0 (ECMA-262 19.2.5: "If sign = -1 and mathInt = 0, return -0")
+			return _negativeZero, nil
+		}
 		n = -n
 	}
 	return intToValue(n), nil
